@@ -1007,26 +1007,48 @@ def canonList (l : SelList) : List Lines :=
     | some r => canonRC r ++ (innerArgsC r.1 ++ innerArgsSt r.2).flatMap canonRC
     | none => []
 
+/-- every simple selector occurring in the list, at any depth -/
+def allSimples (l : SelList) : List Simple :=
+  let tops := l.flatMap fun x => x.flatMap fun | .comb _ => [] | .compound c => c
+  let inner := (innerArgsC tops).flatMap fun r => r.1 ++ r.2.flatMap (·.2)
+  tops ++ inner
+
+/-- the feature-bearing simple selectors occurring anywhere in the selectors (any depth) -/
+def atomsOf (l : SelList) : List Simple :=
+  (allSimples l).filter fun s =>
+    match s with
+    | .type _ | .cls _ | .id _ | .attr _ _ | .pclass _ | .pelem _ => true
+    | _ => false
+
+def applyAtom (e : Elem) : Simple → List Elem
+  | .type n => [{ e with type := n }]
+  | .cls n => [{ e with classes := if e.classes.contains n then e.classes.filter (· ≠ n) else e.classes ++ [n] }]
+  | .id n => [{ e with id := some n }]
+  | .attr n v => [{ e with attrs := (n, v.getD ['v']) :: e.attrs.filter (fun kv => kv.1 ≠ n) }]
+  | .pclass n => [{ e with flags := if e.flags.contains n then e.flags.filter (· ≠ n) else e.flags ++ [n] }]
+  | .pelem n => [{ e with pe := some n }]
+  | _ => []
+
 def setAt {α : Type} (l : List α) (i : Nat) (x : α) : List α := l.take i ++ x :: l.drop (i + 1)
 def insertAt {α : Type} (l : List α) (i : Nat) (x : α) : List α := l.take i ++ x :: l.drop i
 
 def toggle (l : List Name) (n : Name) : List Name := if l.contains n then l.filter (· ≠ n) else l ++ [n]
 
 /-- single-feature variants of an element over the alphabet of Appendix C -/
-def elemVariants (e : Elem) : List Elem :=
-  [ { e with type := nm "a" }, { e with type := nm "b" },
+def elemVariants (atoms : List Simple) (e : Elem) : List Elem :=
+  (atoms.flatMap (applyAtom e) ++ [ { e with type := nm "a" }, { e with type := nm "b" },
     { e with classes := toggle e.classes (nm "x") }, { e with classes := toggle e.classes (nm "y") },
     { e with id := none }, { e with id := some (nm "i") }, { e with id := some (nm "j") },
     { e with attrs := [] }, { e with attrs := [(nm "t", nm "v")] }, { e with attrs := [(nm "t", nm "w")] },
     { e with flags := toggle e.flags (nm "hover") }, { e with flags := toggle e.flags (nm "focus") },
-    { e with pe := none }, { e with pe := some (nm "before") }, { e with pe := some (nm "after") } ].filter (· ≠ e)
+    { e with pe := none }, { e with pe := some (nm "before") }, { e with pe := some (nm "after") } ]).eraseDups.filter (· ≠ e)
 
-def perturbLines (ls : Lines) : List Lines :=
+def perturbLines (atoms : List Simple) (ls : Lines) : List Lines :=
   let idx := List.range ls.length
   let feature := idx.flatMap fun i =>
     let line := ls.getD i []
     (List.range line.length).flatMap fun j =>
-      (elemVariants (line.getD j neutralElem)).map fun e' => setAt ls i (setAt line j e')
+      (elemVariants atoms (line.getD j neutralElem)).map fun e' => setAt ls i (setAt line j e')
   let insSib := idx.flatMap fun i =>
     let line := ls.getD i []
     (List.range (line.length + 1)).filterMap fun j =>
@@ -1053,24 +1075,34 @@ def randElem (s : Nat) : Elem × Nat :=
   let pe := match pick s6 8 with | 0 => some (nm "before") | 1 => some (nm "after") | _ => none
   ({ type := ty, id := id, classes := cl, attrs := at_, flags := fl, pe := pe }, s6)
 
-def randLine : Nat → Nat → List Elem × Nat
-  | 0, s => ([], s)
-  | n + 1, s => let (e, s') := randElem s; let (es, s'') := randLine n s'; (e :: es, s'')
+/-- draw from the alphabet, then (half of the time) impose up to two features of the selectors at hand -/
+def randElemA (atoms : List Simple) (s : Nat) : Elem × Nat :=
+  let (e, s1) := randElem s
+  if atoms.isEmpty then (e, s1) else
+  let s2 := lcg s1; let s3 := lcg s2; let s4 := lcg s3
+  if pick s2 2 == 0 then (e, s4) else
+  let e1 := ((applyAtom e (atoms.getD (pick s3 atoms.length) .univ)).headD e)
+  let e2 := if pick s4 2 == 0 then e1 else ((applyAtom e1 (atoms.getD (pick s4 atoms.length) .univ)).headD e1)
+  (e2, s4)
 
-def randLinesN : Nat → Nat → Lines × Nat
+def randLine (atoms : List Simple) : Nat → Nat → List Elem × Nat
+  | 0, s => ([], s)
+  | n + 1, s => let (e, s') := randElemA atoms s; let (es, s'') := randLine atoms n s'; (e :: es, s'')
+
+def randLinesN (atoms : List Simple) : Nat → Nat → Lines × Nat
   | 0, s => ([], s)
   | n + 1, s =>
     let s1 := lcg s
-    let (line, s2) := randLine (1 + pick s1 3) s1
-    let (rest, s3) := randLinesN n s2
+    let (line, s2) := randLine atoms (1 + pick s1 3) s1
+    let (rest, s3) := randLinesN atoms n s2
     (line :: rest, s3)
 
-def randCtxs : Nat → Nat → List Lines
+def randCtxs (atoms : List Simple) : Nat → Nat → List Lines
   | 0, _ => []
   | n + 1, s =>
     let s1 := lcg s
-    let (ls, s2) := randLinesN (1 + pick s1 4) s1
-    ls :: randCtxs n s2
+    let (ls, s2) := randLinesN atoms (1 + pick s1 4) s1
+    ls :: randCtxs atoms n s2
 
 /-- every single element over the alphabet (thorough tier: complete depth-0 universe) -/
 def allElems : List Elem :=
@@ -1086,7 +1118,8 @@ def allElems : List Elem :=
     their perturbations, `nrand` pseudo-random contexts; `exh` adds every single-element context -/
 def ctxUniverse (sels : List SelList) (seed nrand : Nat) (exh : Bool) : List Ctx :=
   let canon := sels.flatMap canonList
-  let all := canon ++ canon.flatMap perturbLines ++ randCtxs nrand seed ++
+  let atoms := (sels.flatMap atomsOf).eraseDups
+  let all := canon ++ canon.flatMap (perturbLines atoms) ++ randCtxs atoms nrand seed ++
     (if exh then allElems.map (fun e => [[e]]) else [])
   all.filterMap linesToCtx
 
